@@ -167,16 +167,25 @@ def register_builders() -> None:
         return
 
     def _children(stage, graph, owner, n, kind):  # noqa: ANN001
-        for i in range(n):
+        v = stage.context.get("_v") or {}
+        syn = v.get("syn") or {}
+        scripts = syn.get(kind)
+        if scripts is None:
+            scripts = ["ok"] * n  # legacy form: n sequential succeeding children
+            parallel = False
+        else:
+            parallel = bool(syn.get("parallel"))
+        for i, b in enumerate(scripts):
             label = f"{stage.name}/{kind}{i}"
+            script = [{"b": b}]
             child = StageExecution.create_synthetic(
                 type="vchild", name=label, parent=stage, owner=owner,
-                context={"_v": {"tasks": [{"b": "ok"}]}},
+                context={"_v": {"tasks": script}},
             )
             # ids/ref_ids stay the engine's own random ULIDs (what real builders produce); the ledger
             # identifies children by their name
-            child.tasks = make_task_models([{"b": "ok"}], child.id)
-            graph.append(child) if i else graph.add(child)
+            child.tasks = make_task_models(script, child.id)
+            graph.append(child) if (i and not parallel) else graph.add(child)
 
     class VSynBuilder(StageDefinitionBuilder):
         @property
@@ -192,6 +201,9 @@ def register_builders() -> None:
 
         def after_stages(self, stage, graph):  # noqa: ANN001
             _children(stage, graph, SyntheticStageOwner.STAGE_AFTER, (stage.context.get("_v") or {}).get("after", 0), "after")
+
+        def on_failure_stages(self, stage, graph):  # noqa: ANN001
+            _children(stage, graph, SyntheticStageOwner.STAGE_AFTER, 0, "onfail")
 
     class VBuiltBuilder(StageDefinitionBuilder):
         @property
